@@ -692,7 +692,7 @@ func (e *exec) sel(n *ast.SelectStmt) (*Result, error) {
 			} else {
 				ag.arg = a.Args[0]
 			}
-			outs = append(outs, outCol{name: name, ag: ag})
+			outs = append(outs, outCol{name: name, ag: ag, expr: f.Expr})
 			hasAgg = true
 			continue
 		}
@@ -884,7 +884,7 @@ func (e *exec) orderKey(x ast.ExprNode, outs []outCol, vals, src []Value, t *Tab
 		// ORDER BY COUNT(*) etc.: find the same aggregate in the select list by its text
 		txt := restoreExpr(a)
 		for i, o := range outs {
-			if o.ag != nil && strings.EqualFold(o.name, txt) {
+			if o.ag != nil && (strings.EqualFold(o.name, txt) || o.expr != nil && strings.EqualFold(restoreExpr(o.expr), txt)) {
 				return vals[i], nil
 			}
 		}
